@@ -12,6 +12,7 @@ import (
 	"strconv"
 	"strings"
 	"sync"
+	"sync/atomic"
 
 	"github.com/pion/transport/v3"
 )
@@ -38,8 +39,8 @@ var (
 
 func newMACAddress() net.HardwareAddr {
 	b := make([]byte, 8)
-	binary.BigEndian.PutUint64(b, macAddrCounter)
-	macAddrCounter++
+	// NewNet / NewRouter may be called from several goroutines at once.
+	binary.BigEndian.PutUint64(b, atomic.AddUint64(&macAddrCounter, 1)-1)
 
 	return b[2:]
 }
